@@ -249,8 +249,9 @@ def build_gates(repo, spec_dir, canary=False):
     rx = b.src('regexp.rs')
     six = '(%s.is_digit_converted || %s.is_non_digit_converted || %s.is_space_converted || %s.is_non_space_converted || %s.is_word_converted || %s.is_non_word_converted)'
     b.emit('impl RegExpConfig {')
+    b.emit('}\npub open spec fn class_feature(c: RegExpConfig) -> bool { c.is_digit_converted || c.is_non_digit_converted || c.is_space_converted || c.is_non_space_converted || c.is_word_converted || c.is_non_word_converted }\nimpl RegExpConfig {')
     b.verified_fn('config.rs', 'is_char_class_feature_enabled', within=r'^impl RegExpConfig \{', props=['C07'], fname='RegExpConfig::is_char_class_feature_enabled',
-                  clauses=[Clause('class_gate.enabled_when_requested', (six % (('self',) * 6)) + ' ==> r', ['C03'])])
+                  clauses=[Clause('class_gate.enabled_when_requested', 'class_feature(*self) ==> r', ['C03', 'C16'])])
     b.verified_fn('config.rs', 'new', within=r'^impl RegExpConfig \{', props=['C07'], fname='RegExpConfig::new',
                   clauses=[Clause('config.defaults', 'r.minimum_repetitions == 1 && r.minimum_substring_length == 1 && !r.is_digit_converted && !r.is_non_digit_converted && !r.is_space_converted && !r.is_non_space_converted && !r.is_word_converted && !r.is_non_word_converted && !r.is_repetition_converted && !r.is_case_insensitive_matching && !r.is_capturing_group_enabled && !r.is_non_ascii_char_escaped && !r.is_astral_code_point_converted_to_surrogate && !r.is_verbose_mode_enabled && !r.is_start_anchor_disabled && !r.is_end_anchor_disabled && !r.is_output_colorized', ['C02', 'C10', 'C12'])])
     b.emit('}')
